@@ -568,6 +568,29 @@ def _run_block(ctx, case, mats, w, sig, extra):
             want = _as3(violation, what + ' [direct]', want)
             if got is None or want is None:
                 continue
+            if wl is not None and j == 0:
+                # the direct SLD is the same number through the package-level periodictable.neutron_sld and when the
+                # beam is given as energy= (the calculator itself only takes wavelengths)
+                try:
+                    alt = pt.neutron_sld(tot, density=rho, energy=nsf.neutron_energy(wl))
+                    a = np.array([np.broadcast_to(np.asarray(v, dtype=float), np.shape(wl)).reshape(-1) for v in alt])
+                    b = np.array([np.broadcast_to(np.asarray(v, dtype=float), np.shape(wl)).reshape(-1) for v in want])
+                except Exception as exc:
+                    a = b = None
+                    violation('%s: periodictable.neutron_sld(<sum formula>, density=%r, energy=neutron_energy(wavelength)) '
+                              'raised %s: %s' % (what, rho, type(exc).__name__, exc), symptom='direct-route-alias',
+                              route='direct')
+                if a is not None:
+                    ctx.evaluated(3, 'direct_route_alias')
+                    ctx.count('direct_route_alias')
+                    scale = np.sqrt((b ** 2).sum(axis=0))
+                    floor = np.array([1e-12 * scale, 1e-12 * scale, 1e-7 * (np.abs(b[0]) + np.abs(b[1]))])
+                    # (the incoherent SLD is the root of a clipped difference of cross sections: where it cancels,
+                    # the ulp that wavelength -> energy -> wavelength moves the beam shows at 1e-7 of the SLD scale)
+                    if a.shape != b.shape or not np.all(np.abs(a - b) <= 1e-9 * np.abs(b) + floor):
+                        violation('%s: the direct SLD differs between nsf.neutron_sld(wavelength=) %r and '
+                                  'periodictable.neutron_sld(energy=) %r' % (what, b.tolist(), a.tolist()),
+                                  symptom='direct-route-alias', route='direct')
             vacuum = (sum(app['weights']) == 0) or (rho == 0)
             sig.append((w['kind'], len(w['values']), tuple(x == 0 for x in app['weights']), rho == 0, app['dtype']))
             _count_extremes(ctx, app['weights'], rho)
